@@ -190,11 +190,19 @@ def model_segments(out):
 
 # ----------------------------------------------------------------------------- cases -> script
 class Sketch:
-    def __init__(self):
+    """one Reduino script holding many cases.  Plain cases live in setup(); a case with "passes" = P has its
+    declaration and initial getters in setup() and its calls inside `while True:` (run for P passes: the
+    firmware's globals must carry the buzzer state from one pass of loop() to the next)."""
+
+    def __init__(self, passes=0):
         self.lines = [HEADER.rstrip("\n")]
         self.reads = []
+        self.loop_lines = []
+        self.loop_reads = []
+        self.passes = passes
         self.nvar = 0
         self.ids = []
+        self._tl, self._tr = self.lines, self.reads
 
     def expr(self, a):
         v, rt = a
@@ -202,15 +210,15 @@ class Sketch:
             return repr(v)
         name = f"r{self.nvar}"
         self.nvar += 1
-        self.lines.append(f'{name} = analog_read("A0")')
+        self._tl.append(f'{name} = analog_read("A0")')
         fr = Fr(str(v)) if isinstance(v, float) else Fr(v)
         if fr.denominator == 1:
-            self.reads.append(int(fr) + OFF)
+            self._tr.append(int(fr) + OFF)
             return f"({name} - {OFF})"
         D = next(D for D in (2, 4, 8, 10, 100, 1000) if (fr * D).denominator == 1)
         reading = int(fr * D) + OFF
         assert (reading - OFF) / float(D) == v, (v, D)
-        self.reads.append(reading)
+        self._tr.append(reading)
         return f"({name} - {OFF}) / {D}.0"
 
     def call_line(self, var, c, style):
@@ -221,47 +229,106 @@ class Sketch:
                 return f"{var}.play_tone({f})" if style % 2 == 0 else f"{var}.play_tone(frequency={f})"
             d = self.expr(c["d"])
             return [f"{var}.play_tone({f}, {d})", f"{var}.play_tone({f}, duration_ms={d})",
-                    f"{var}.play_tone(frequency={f}, duration_ms={d})"][style % 3]
+                    f"{var}.play_tone(frequency={f}, duration_ms={d})",
+                    f"{var}.play_tone(duration_ms={d}, frequency={f})"][style % 4]
         if k == "stop":
             return f"{var}.stop()"
         if k == "beep":
-            parts = []
+            # mode 0: positional frequency + keywords; 1: keywords only (sometimes in reverse order);
+            # 2: as many leading arguments as possible positionally (frequency, on_ms, off_ms, times)
+            mode = style % 3
+            parts, positional = [], (mode == 2 and c["f"] is not None)
             if c["f"] is not None:
                 f = self.expr(c["f"])
-                parts.append(f if style % 2 == 0 else f"frequency={f}")
+                parts.append(f"frequency={f}" if mode == 1 else f)
             for key, kw in (("on", "on_ms"), ("off", "off_ms"), ("times", "times")):
                 if c[key] is not None:
-                    parts.append(f"{kw}={self.expr(c[key])}")
+                    e = self.expr(c[key])
+                    parts.append(e if positional else f"{kw}={e}")
+                else:
+                    positional = False
+            if mode == 1 and style % 5 == 4:
+                parts.reverse()
             return f"{var}.beep({', '.join(parts)})"
         if k == "sweep":
             s, e, d = self.expr(c["s"]), self.expr(c["e"]), self.expr(c["d"])
+            if style % 3 == 2:           # fully positional
+                tail = "" if c["steps"] is None else f", {self.expr(c['steps'])}"
+                return f"{var}.sweep({s}, {e}, {d}{tail})"
             head = f"{s}, {e}" if style % 2 == 0 else f"start_hz={s}, end_hz={e}"
             tail = "" if c["steps"] is None else f", steps={self.expr(c['steps'])}"
             return f"{var}.sweep({head}, duration_ms={d}{tail})"
         if k == "melody":
             nm = f'"{c["name"]}"' if style % 2 == 0 else f'name="{c["name"]}"'
-            tail = "" if c["tempo"] is None else f", tempo={self.expr(c['tempo'])}"
-            return f"{var}.melody({nm}{tail})"
+            if c["tempo"] is None:
+                return f"{var}.melody({nm})"
+            t = self.expr(c["tempo"])
+            return f"{var}.melody({nm}, {t})" if style % 4 == 0 else f"{var}.melody({nm}, tempo={t})"
         raise ValueError(k)
 
-    def add_case(self, cid, case):
+    @staticmethod
+    def getters(var):
+        return [f"mon.write({var}.get_state())", f"mon.write({var}.get_frequency())",
+                f"mon.write({var}.get_last_frequency())"]
+
+    def declare(self, cid, case):
         var = f"b{len(self.ids)}"
         self.ids.append(cid)
         d0 = case["default"]
         self.lines.append(f"{var} = Buzzer({case['pin']})" if d0 is None
                           else f"{var} = Buzzer({case['pin']}, default_frequency={d0!r})")
         self.lines.append(f'mon.write("##case {cid}")')
-        getters = [f"mon.write({var}.get_state())", f"mon.write({var}.get_frequency())",
-                   f"mon.write({var}.get_last_frequency())"]
-        self.lines += getters
-        for j, c in enumerate(case["calls"]):
-            self.lines.append(self.call_line(var, c, case.get("style", 0) + j))
-            self.lines += getters
+        self.lines += self.getters(var)
+        return var
+
+    def add_case(self, cid, case):
+        var = self.declare(cid, case)
+        body = case.get("body", case["calls"])
+        if self.passes:
+            self._tl, self._tr = self.loop_lines, self.loop_reads
+            self.loop_lines.append(f'mon.write("##case {cid}")')
+        for j, c in enumerate(body):
+            self._tl.append(self.call_line(var, c, case.get("style", 0) + j))
+            self._tl.extend(self.getters(var))
+        self._tl, self._tr = self.lines, self.reads
+
+    def add_duo(self, cid_a, case_a, cid_b, case_b, order):
+        """two buzzers on different pins, their calls interleaved as given by `order` (0 = a, 1 = b)"""
+        va, vb = self.declare(cid_a, case_a), self.declare(cid_b, case_b)
+        ia = ib = 0
+        for who in order:
+            var, cid, case, j = (va, cid_a, case_a, ia) if who == 0 else (vb, cid_b, case_b, ib)
+            self.lines.append(f'mon.write("##case {cid}")')
+            self.lines.append(self.call_line(var, case["calls"][j], case.get("style", 0) + j))
+            self.lines += self.getters(var)
+            if who == 0:
+                ia += 1
+            else:
+                ib += 1
 
     def job(self):
-        src = "\n".join(self.lines) + "\n"
-        inp = ("ar 14 " + " ".join(str(r) for r in self.reads) + "\n") if self.reads else ""
+        lines = list(self.lines)
+        reads = list(self.reads)
+        if self.passes:
+            lines.append("while True:")
+            lines += ["    " + l for l in self.loop_lines]
+            reads += self.loop_reads * self.passes
+        src = "\n".join(lines) + "\n"
+        inp = ("ar 14 " + " ".join(str(r) for r in reads) + "\n") if reads else ""
         return src, inp
+
+
+def split_multi(events, marker="S ##case "):
+    """like fw.split_cases, but a marker that occurs again (next pass of loop(), next call of an interleaved
+    buzzer) continues that case's event list"""
+    out, cur = {}, None
+    for e in events:
+        if e.startswith(marker):
+            cur = e[len(marker):].strip()
+            out.setdefault(cur, [])
+        elif cur is not None:
+            out[cur].append(e)
+    return out
 
 
 def fw_segments(events):
@@ -323,7 +390,12 @@ def oracle(ctx, case, segs, spec, strict_steps=False):
     d0 = case["default"]
     default = f32(440.0 if d0 is None else d0)
     sounding, last_t, last_src = False, None, None
+    last_unknown = False       # set when the statement does not determine the last frequency (non-integer steps)
     fails = []
+
+    def eff_last():
+        """frequency a beep() without argument repeats, None when not determined by the statement"""
+        return None if last_unknown else (last_src if last_src is not None else Fr(default))
 
     def bad(key, what, expected, observed, j):
         fails.append((key, f"call #{j} {case['calls'][j]['k'] if j >= 0 else 'declaration'}: {what}", expected, observed))
@@ -343,7 +415,7 @@ def oracle(ctx, case, segs, spec, strict_steps=False):
         # ---- clause 1: a frequency <= 0 never starts a tone
         nonpos = (k == "play" and qfreq(c["f"]) <= 0) or \
                  (k == "beep" and c["f"] is not None and qfreq(c["f"]) <= 0) or \
-                 (k == "beep" and c["f"] is None and (last_src if last_src is not None else Fr(default)) <= 0) or \
+                 (k == "beep" and c["f"] is None and eff_last() is not None and eff_last() <= 0) or \
                  (k == "sweep" and qfreq(c["s"]) <= 0 and qfreq(c["e"]) <= 0)
         if nonpos and tones:
             bad("nonpositive-tones", "a frequency <= 0 started a tone", "no tone()", evs, j)
@@ -360,13 +432,15 @@ def oracle(ctx, case, segs, spec, strict_steps=False):
             n = max(0, trunc(qint(c["times"] or A(DEF["times"]))))
             on = math.floor(qdur(c["on"] or A(DEF["on"])))
             off = math.floor(qdur(c["off"] or A(DEF["off"])))
-            target = qfreq(c["f"]) if c["f"] is not None else (last_src if last_src is not None else Fr(default))
-            if target > 0:
+            target = qfreq(c["f"]) if c["f"] is not None else eff_last()
+            # a non-integer `times` is not constrained by the statement: left to the correspondence
+            if target is not None and target > 0 and qint(c["times"] or A(DEF["times"])).denominator == 1:
                 exp = beep_pattern(pin, rnd(target), on, off, n)
                 if evs != exp:
                     bad("beep-counts", f"beep must sound exactly {n} time(s) with the given on/off gaps", exp, evs, j)
         if k == "sweep":
             steps = trunc(qint(c["steps"] or A(DEF["steps"])))
+            whole_steps = qint(c["steps"] or A(DEF["steps"])).denominator == 1
             n = max(1, steps)
             s, e = max(Fr(0), qfreq(c["s"])), max(Fr(0), qfreq(c["e"]))
             total = math.floor(qdur(c["d"]))
@@ -376,12 +450,12 @@ def oracle(ctx, case, segs, spec, strict_steps=False):
                 bad("sweep-monotone", "falling sweep is not monotone", "non-increasing", tones, j)
             if steps >= 1:
                 # steps < 1 is the known finding F-C16-sweep-steps-clamped: count/ends are not judged there
-                if len(tones) > n:
+                if whole_steps and len(tones) > n:
                     bad("sweep-count", "sweep plays more tones than steps", f"<= {n}", tones, j)
                 if e > 0 and (not tones or tones[-1] != rnd(e)):
                     bad("sweep-end", "sweep does not end on the end frequency", rnd(e), tones, j)
                 if s > 0 and e > 0:
-                    if len(tones) != n:
+                    if whole_steps and len(tones) != n:
                         bad("sweep-count", "sweep does not play `steps` tones", n, tones, j)
                     if n > 1 and tones and tones[0] != rnd(s):
                         bad("sweep-start", "sweep does not start on the start frequency", rnd(s), tones, j)
@@ -410,18 +484,24 @@ def oracle(ctx, case, segs, spec, strict_steps=False):
                 sounding = False
         # source frequency of the last tone, from the arguments (property-level bookkeeping)
         if k == "play" and qfreq(c["f"]) > 0:
-            last_src = qfreq(c["f"])
+            last_src, last_unknown = qfreq(c["f"]), False
         elif k == "beep" and tones:
-            last_src = qfreq(c["f"]) if c["f"] is not None else last_src if last_src is not None else Fr(default)
+            if c["f"] is not None:
+                last_src, last_unknown = qfreq(c["f"]), False
+            elif not last_unknown:
+                last_src = last_src if last_src is not None else Fr(default)
         elif k == "sweep" and tones:
-            n = max(1, trunc(qint(c["steps"] or A(DEF["steps"]))))
-            s, e = max(Fr(0), qfreq(c["s"])), max(Fr(0), qfreq(c["e"]))
-            fs = [e if n == 1 else s + (e - s) * Fr(i, n - 1) for i in range(n)]
-            pos = [f for f in fs if f > 0]
-            last_src = pos[-1] if pos else last_src
+            e = max(Fr(0), qfreq(c["e"]))
+            if e > 0:
+                last_src, last_unknown = e, False
+            else:
+                # the sweep fades out before reaching a non-positive end: which interpolated tone was the
+                # last one is not fixed by the statement (only checked against the trace, to rounding)
+                last_unknown = True
         elif k == "melody" and tones:
             pos = [fq for fq, _ in spec[c["name"].lower()][1] if fq > 0]
-            last_src = pos[-1] if pos else last_src
+            if pos:
+                last_src, last_unknown = pos[-1], False
         # ---- clause 2: timed calls leave the pin silent, state false (inside the guard)
         timed = (k == "play" and c["d"] is not None) or k in ("beep", "sweep", "melody")
         if timed and (sounding or g[0] != 0 or abs(g[1]) > eps):
@@ -431,7 +511,7 @@ def oracle(ctx, case, segs, spec, strict_steps=False):
         if g[0] != (1 if sounding else 0):
             bad("getters", "get_state() differs from whether the pin is sounding", int(sounding), g, j)
         if sounding:
-            want = float(last_src) if last_src is not None else None
+            want = float(last_src) if last_src is not None and not last_unknown else None
             if abs(g[1] - last_t) > 0.5 + eps or (want is not None and abs(g[1] - want) > eps):
                 bad("getters", "get_frequency() is not the tone currently sounded", want if want is not None else last_t, g, j)
         elif abs(g[1]) > eps:
@@ -440,7 +520,7 @@ def oracle(ctx, case, segs, spec, strict_steps=False):
             if abs(g[2] - default) > eps:
                 bad("getters", "get_last_frequency() must stay default_frequency until a tone sounds", default, g, j)
         else:
-            want = float(last_src) if last_src is not None else None
+            want = float(last_src) if last_src is not None and not last_unknown else None
             if abs(g[2] - last_t) > 0.5 + eps or (want is not None and abs(g[2] - want) > eps):
                 bad("getters", "get_last_frequency() is not the tone last sounded", want if want is not None else last_t, g, j)
         prev_last_printed = g[2]
@@ -533,9 +613,9 @@ def random_call(rng):
         c = stop()
     elif k == "beep":
         c = beep(fq() if rng.random() < 0.7 else None, du() if rng.random() < 0.8 else None,
-                 du() if rng.random() < 0.8 else None, rng.choice(TIMES + [2, 2.5, 4, -1.5]) if rng.random() < 0.85 else None)
+                 du() if rng.random() < 0.8 else None, rng.choice(TIMES + [2, 2.5, 4, -1.5, 1.5, 3.5, 0.75]) if rng.random() < 0.85 else None)
     elif k == "sweep":
-        c = sweep(fq(), fq(), du(), rng.choice(STEPS + [3, 9, 4, 7, 2.5]) if rng.random() < 0.85 else None)
+        c = sweep(fq(), fq(), du(), rng.choice(STEPS + [3, 9, 4, 7, 2.5, 1.5, 3.5]) if rng.random() < 0.85 else None)
     else:
         nm = rng.choice(SEVEN)
         nm = rng.choice([nm, nm, nm.upper(), nm.capitalize()])
@@ -572,21 +652,74 @@ def build_cases(ctx):
     # (3) seeded random sequences, length <= 8
     for _ in range(6000 if thorough else 300):
         add("random", [random_call(rng) for _ in range(rng.randint(1, 8))], rng.choice(DEFAULTS), style=rng.randrange(6))
+    # (4) calls inside `while True:`: the body runs for P passes of loop(); the state must persist between passes
+    for n in range(400 if thorough else 40):
+        body = [random_call(rng) for _ in range(rng.randint(1, 4))] if n >= len(PAIR_ALPHABET) else \
+               [route(PAIR_ALPHABET[n], n % 2 == 1)] + [random_call(rng) for _ in range(rng.randint(0, 2))]
+        passes = 2 if n % 3 else 3
+        add("loop", body * passes, rng.choice(DEFAULTS), style=rng.randrange(6))
+        cases[-1].update({"passes": passes, "body": body})
+    # (5) two buzzers on different pins, calls interleaved: one buzzer's calls must not touch the other
+    for n in range(300 if thorough else 30):
+        a = [random_call(rng) for _ in range(rng.randint(1, 4))]
+        b = [random_call(rng) for _ in range(rng.randint(1, 4))]
+        order = [0] * len(a) + [1] * len(b)
+        rng.shuffle(order)
+        add("duo", a, rng.choice(DEFAULTS), style=rng.randrange(6))
+        add("duo", b, rng.choice(DEFAULTS), style=rng.randrange(6))
+        assert cases[-1]["pin"] != cases[-2]["pin"]
+        for role, (me, other) in enumerate(((cases[-2], cases[-1]), (cases[-1], cases[-2]))):
+            me.update({"duo_id": n, "duo_role": role, "duo_order": order,
+                       "partner": {k: other[k] for k in ("pin", "default", "calls", "style")}})
+    return cases
+
+
+AUX_KEYS = ("passes", "body", "duo", "duo_id", "duo_role", "duo_order", "partner")
+
+
+def plain(case, **over):
+    """the case as a stand-alone setup() case (no loop, no partner)"""
+    return dict({k: v for k, v in case.items() if k not in AUX_KEYS}, **over)
+
+
+def link_duos(cases):
+    """(re)compute the partner indices after filtering; a part whose partner was dropped becomes a plain case"""
+    by = {}
+    for i, c in enumerate(cases):
+        c.pop("duo", None)
+        if "duo_id" in c:
+            by.setdefault(c["duo_id"], []).append(i)
+    for ids in by.values():
+        if len(ids) == 2:
+            a, b = sorted(ids, key=lambda i: cases[i]["duo_role"])
+            cases[a]["duo"] = (b, cases[a]["duo_order"])
     return cases
 
 
 # ----------------------------------------------------------------------------- running
 def run_firmware(cases, per_sketch):
-    """-> {case index: segments or ('error', text)}"""
-    sketches, cur, n_ops = [], Sketch(), 0
-    for i, case in enumerate(cases):
-        if n_ops and n_ops + len(case["calls"]) > per_sketch:
+    """-> {case index: segments or ('error', text)}.  Plain cases are batched in setup(); cases with "passes"
+    go to sketches of their own kind (calls inside `while True:`); a case with "duo" = (partner index, order)
+    is emitted together with its partner, calls interleaved."""
+    sketches = []
+    partners = {c["duo"][0] for c in cases if c.get("duo")}
+    for passes in sorted({c.get("passes", 0) for c in cases}):
+        cur, n_ops = Sketch(passes), 0
+        for i, case in enumerate(cases):
+            if case.get("passes", 0) != passes or i in partners:
+                continue
+            group = [case] + ([cases[case["duo"][0]]] if case.get("duo") else [])
+            size = sum(len(c.get("body", c["calls"])) + 1 for c in group)
+            if n_ops and n_ops + size > per_sketch:
+                sketches.append(cur)
+                cur, n_ops = Sketch(passes), 0
+            if case.get("duo"):
+                cur.add_duo(i, case, case["duo"][0], cases[case["duo"][0]], case["duo"][1])
+            else:
+                cur.add_case(i, case)
+            n_ops += size
+        if cur.ids:
             sketches.append(cur)
-            cur, n_ops = Sketch(), 0
-        cur.add_case(i, case)
-        n_ops += len(case["calls"]) + 1
-    if cur.ids:
-        sketches.append(cur)
     jobs = [s.job() for s in sketches]
     tr = fw.transpile_many([src for src, _ in jobs])
     out, runs = {}, []
@@ -595,14 +728,14 @@ def run_firmware(cases, per_sketch):
             for cid in s.ids:
                 out[cid] = ("error", f"transpile: {t.get('exc')}: {t.get('msg')}")
         else:
-            runs.append((s, {"cpp": t["cpp"], "input": inp, "loops": 0, "run_timeout": 60}))
+            runs.append((s, {"cpp": t["cpp"], "input": inp, "loops": s.passes, "run_timeout": 120}))
     res = fw.run_sketches([j for _, j in runs])
     for (s, _), r in zip(runs, res):
         if not r["compiled"] or r["rc"] != 0:
             for cid in s.ids:
                 out[cid] = ("error", "compile: " + r["compile_log"][-400:] if not r["compiled"] else f"run rc={r['rc']} {r['stderr'][-300:]}")
             continue
-        by = fw.split_cases(r["events"])
+        by = split_multi(r["events"])
         for cid in s.ids:
             segs = fw_segments(by.get(str(cid), ["?missing"]))
             out[cid] = segs if segs is not None else ("error", "malformed trace: " + " | ".join(by.get(str(cid), [])[:30]))
@@ -714,7 +847,7 @@ def shrink_failures(ctx, spec):
         if j < 0 or len(case["calls"]) == 1:
             continue
         for calls in ([case["calls"][j]], case["calls"][:j + 1]):
-            cands.append((key, dict(case, calls=calls, kind="minimized")))
+            cands.append((key, plain(case, calls=calls, kind="minimized")))
     if not cands:
         return
     try:
@@ -758,7 +891,7 @@ def run(ctx: C.Ctx):
             kept.append(c)
         else:
             n_inexact += 1
-    cases = kept
+    cases = link_duos(kept)
     models = ctx.model([wire_case(c) for c in cases])
     units = sum(len(c["calls"]) + 1 for c in cases)
     fwres, n_sketches = run_firmware(cases, 80 if thorough else max(20, -(-units // 38)))
@@ -830,7 +963,14 @@ def replay(data):
     ctx = C.Ctx("C16", "quick", 0)
     ctx.prepare()
     spec = load_spec(ctx)
-    fwres, _ = run_firmware([case], 10 ** 6)
+    group = [dict(case)]
+    group[0].pop("duo", None)
+    if case.get("partner") and "duo_order" in case:
+        other = dict(case["partner"], kind="duo", duo_id=0, duo_role=1 - case["duo_role"], duo_order=case["duo_order"])
+        group[0]["duo_id"] = 0
+        group.append(other)
+        link_duos(group)
+    fwres, _ = run_firmware(group, 10 ** 6)
     segs = fwres.get(0)
     print("firmware segments:", segs)
     if isinstance(segs, tuple):
